@@ -619,7 +619,52 @@ pub fn run_slice_history<A: Atomicity>(rng: &mut Rng, nops: usize, st: &mut Stat
     let mut keep: Vec<(Tendril<Bytes, A>, Vec<u8>)> = vec![];
     let mut skeep: Vec<(Tendril<UTF8, A>, String)> = vec![];
     for opno in 0..nops {
-        match rng.below(12) {
+        match rng.below(13) {
+            11 => {
+                // Bytes -> UTF8 conversion by lossy decoding, in two pieces: every tendril handed out
+                // must hold valid UTF-8 and the pieces must add up to the lossy decode of the model
+                let data: Vec<u8> = if rng.chance(1, 2) { bm.clone() } else { let __n = *rng.pick(&LENS[..12]); let mut v = UTF8::gen(rng, __n); if rng.chance(1, 2) && !v.is_empty() { let k = rng.below(v.len()); v[k] = *rng.pick(&[0x80u8, 0xbf, 0xc0, 0xe0, 0xed, 0xf0, 0xf4, 0xff]); } v };
+                let cut = rng.below(data.len() + 1);
+                let mut out = String::new();
+                let mut invalid_piece = false;
+                let first: Tendril<Bytes, A> = Tendril::from_slice(&data[..cut]);
+                let second: Tendril<Bytes, A> = Tendril::from_slice(&data[cut..]);
+                let mut pending = first.decode_utf8_lossy(|t| {
+                    invalid_piece |= std::str::from_utf8(t.as_bytes()).is_err();
+                    out.push_str(&t);
+                });
+                let mut rest = Some(second);
+                if let Some(inc) = pending.as_mut() {
+                    match inc.try_complete(rest.take().unwrap(), |t: Tendril<UTF8, A>| {
+                        invalid_piece |= std::str::from_utf8(t.as_bytes()).is_err();
+                        out.push_str(&t);
+                    }) {
+                        Ok(r) => {
+                            rest = Some(r);
+                            pending = None;
+                        },
+                        Err(()) => {}, // the second piece was consumed into the still incomplete sequence
+                    }
+                }
+                if let Some(r) = rest {
+                    if pending.is_none() {
+                        pending = r.decode_utf8_lossy(|t| {
+                            invalid_piece |= std::str::from_utf8(t.as_bytes()).is_err();
+                            out.push_str(&t);
+                        });
+                    }
+                }
+                if pending.is_some() {
+                    out.push('\u{fffd}');
+                }
+                if invalid_piece {
+                    return Err((format!("#{opno} decode_utf8_lossy {:?} cut {cut}", data), "a UTF-8 tendril handed out by decode_utf8_lossy/try_complete holds invalid UTF-8".into()));
+                }
+                if out != String::from_utf8_lossy(&data) {
+                    return Err((format!("#{opno} decode_utf8_lossy {:?} cut {cut}", data), format!("pieces add up to {:?}, the lossy decode of the bytes is {:?}", out, String::from_utf8_lossy(&data))));
+                }
+                st.count("Bytes:op:decode_utf8_lossy/try_complete");
+            },
             0 => {
                 let add = { let __n = *rng.pick(&LENS[..10]); Bytes::gen(rng, __n) };
                 b.write_all(&add).unwrap();
@@ -628,12 +673,54 @@ pub fn run_slice_history<A: Atomicity>(rng: &mut Rng, nops: usize, st: &mut Stat
             },
             1 => {
                 let add = { let __n = *rng.pick(&LENS); Bytes::gen(rng, __n) };
-                let mut rd: &[u8] = &add;
-                let n = rd.read_to_tendril(&mut b).unwrap();
-                if n != add.len() {
-                    return Err((format!("#{opno} read_to_tendril"), format!("returned {n} for {} bytes", add.len())));
+                if rng.chance(1, 2) {
+                    let mut rd: &[u8] = &add;
+                    let n = rd.read_to_tendril(&mut b).unwrap();
+                    if n != add.len() {
+                        return Err((format!("#{opno} read_to_tendril"), format!("returned {n} for {} bytes", add.len())));
+                    }
+                    bm.extend(&add);
+                } else {
+                    // a reader with short reads, Interrupted errors and possibly a hard error: the
+                    // tendril must end up with exactly the bytes delivered before the error
+                    struct Scripted<'a> {
+                        data: &'a [u8],
+                        pos: usize,
+                        step: usize,
+                        fail_at: Option<usize>,
+                        k: usize,
+                    }
+                    impl std::io::Read for Scripted<'_> {
+                        fn read(&mut self, buf: &mut [u8]) -> std::io::Result<usize> {
+                            self.k += 1;
+                            if self.k % 3 == 0 {
+                                return Err(std::io::Error::new(std::io::ErrorKind::Interrupted, "again"));
+                            }
+                            if let Some(f) = self.fail_at {
+                                if self.pos >= f {
+                                    return Err(std::io::Error::new(std::io::ErrorKind::Other, "broken"));
+                                }
+                            }
+                            let mut n = self.step.min(buf.len()).min(self.data.len() - self.pos);
+                            if let Some(f) = self.fail_at {
+                                n = n.min(f - self.pos);
+                            }
+                            buf[..n].copy_from_slice(&self.data[self.pos..self.pos + n]);
+                            self.pos += n;
+                            Ok(n)
+                        }
+                    }
+                    let fail_at = if rng.chance(1, 2) { Some(rng.below(add.len() + 1)) } else { None };
+                    let mut rd = Scripted { data: &add, pos: 0, step: *rng.pick(&[1usize, 2, 7, 31, 32, 33, 1000]), fail_at, k: 0 };
+                    let r = rd.read_to_tendril(&mut b);
+                    let delivered = rd.pos;
+                    bm.extend(&add[..delivered]);
+                    match (r, fail_at) {
+                        (Ok(n), None) if n == add.len() => {},
+                        (Err(_), Some(_)) => st.count("Bytes:op:read_to_tendril:io-error"),
+                        (r, f) => return Err((format!("#{opno} read_to_tendril"), format!("returned {r:?} (delivered {delivered} of {} bytes, failing at {f:?})", add.len()))),
+                    }
                 }
-                bm.extend(&add);
                 st.count("Bytes:op:read_to_tendril");
             },
             2 => {
@@ -721,6 +808,76 @@ pub fn run_slice_history<A: Atomicity>(rng: &mut Rng, nops: usize, st: &mut Stat
                     return Err((format!("#{opno} from String"), "content differs".into()));
                 }
                 st.count("UTF8:op:String conversions");
+                // the remaining trait surface: FromStr, From<Tendril> for String, PartialEq<str>, Ord, Hash,
+                // Borrow<[u8]>, Extend by value / of slices / of tendrils, io::Write::write, superset/subset by value
+                {
+                    use std::borrow::Borrow;
+                    use std::hash::{Hash, Hasher};
+                    let t3: Tendril<UTF8, A> = sm.parse().unwrap();
+                    let back: String = t3.clone().into();
+                    if back != sm || !(t3 == *sm.as_str()) {
+                        return Err((format!("#{opno} FromStr / into String / PartialEq<str>"), "content differs".into()));
+                    }
+                    let other: Tendril<UTF8, A> = Tendril::from_slice(skeep.first().map(|k| k.1.as_str()).unwrap_or("m"));
+                    if t3.cmp(&other) != sm.as_str().cmp(&*other) || t3.partial_cmp(&other) != sm.as_str().partial_cmp(&*other) {
+                        return Err((format!("#{opno} Ord"), "ordering differs from str ordering".into()));
+                    }
+                    let h = |x: &dyn Fn(&mut std::collections::hash_map::DefaultHasher)| {
+                        let mut hs = std::collections::hash_map::DefaultHasher::new();
+                        x(&mut hs);
+                        hs.finish()
+                    };
+                    if h(&|hs| b.hash(hs)) != h(&|hs| bm[..].hash(hs)) {
+                        return Err((format!("#{opno} Hash"), "a byte tendril hashes differently from its bytes (it implements Borrow<[u8]>)".into()));
+                    }
+                    let bb: &[u8] = b.borrow();
+                    if bb != &bm[..] {
+                        return Err((format!("#{opno} Borrow<[u8]>"), "content differs".into()));
+                    }
+                    let mut e: Tendril<Bytes, A> = Tendril::new();
+                    e.extend(bm.iter().copied().take(20));
+                    let parts: Vec<&[u8]> = bm.chunks(3).take(5).collect();
+                    e.extend(parts.iter().copied());
+                    let mut em: Vec<u8> = bm.iter().copied().take(20).collect();
+                    for p in &parts {
+                        em.extend_from_slice(p);
+                    }
+                    let _ = std::io::Write::write(&mut e, b"wr").unwrap();
+                    std::io::Write::flush(&mut e).unwrap();
+                    em.extend_from_slice(b"wr");
+                    let tends: Vec<Tendril<Bytes, A>> = keep.iter().map(|k| k.0.clone()).collect();
+                    e.extend(tends.iter());
+                    for k in &keep {
+                        em.extend_from_slice(&k.1);
+                    }
+                    if &e[..] != &em[..] {
+                        return Err((format!("#{opno} Extend<u8> / Extend<&[u8]> / io::Write::write / Extend<&Tendril>"), "content differs".into()));
+                    }
+                    let mut es: Tendril<UTF8, A> = Tendril::new();
+                    es.extend(["a", sm.as_str(), "é"].iter().copied());
+                    if &*es != format!("a{sm}é") {
+                        return Err((format!("#{opno} Extend<&str>"), "content differs".into()));
+                    }
+                    let sup: Tendril<WTF8, A> = s.clone().into_superset();
+                    if sup.as_bytes()[..] != *sm.as_bytes() {
+                        return Err((format!("#{opno} into_superset"), "content differs".into()));
+                    }
+                    match sup.try_into_subset::<UTF8>() {
+                        Ok(u) if &*u == &*sm => {},
+                        _ => return Err((format!("#{opno} try_into_subset"), "a WTF-8 tendril made from a UTF-8 one did not convert back".into())),
+                    }
+                    match s.clone().try_into_subset::<ASCII>() {
+                        Ok(a) if sm.is_ascii() && a.as_bytes()[..] == *sm.as_bytes() => {},
+                        Err(orig) if !sm.is_ascii() && &*orig == &*sm => {},
+                        _ => return Err((format!("#{opno} try_into_subset::<ASCII>"), "outcome differs from is_ascii()".into())),
+                    }
+                    let snd: tendril::SendTendril<UTF8> = s.clone().into();
+                    let rt: Tendril<UTF8, A> = snd.into();
+                    if &*rt != &*sm {
+                        return Err((format!("#{opno} From<Tendril> for SendTendril"), "content differs".into()));
+                    }
+                    st.count("op:trait-surface");
+                }
             },
             _ => {
                 // reach "heap-backed but short" states (an owned or shared buffer holding at most 8
